@@ -46,7 +46,6 @@ func (f *Loop) Call(s *slip.Scope, args slip.List, depth int) (result slip.Objec
 	d2 := depth + 1
 	ns := s.NewScope()
 	ns.Block = true
-	ns.TagBody = true
 	for i, form := range args {
 		if list, ok := form.(slip.List); ok {
 			args[i] = slip.ListToFunc(ns, list, d2)
@@ -55,7 +54,8 @@ func (f *Loop) Call(s *slip.Scope, args slip.List, depth int) (result slip.Objec
 top:
 	for {
 		for _, form := range args {
-			if tr, ok := ns.Eval(form, d2).(*slip.ReturnResult); ok {
+			switch tr := ns.Eval(form, d2).(type) {
+			case *slip.ReturnResult:
 				if tr.Tag == nil {
 					result = tr.Result
 					break top
@@ -64,8 +64,12 @@ top:
 				// this form.
 				result = tr
 				break top
+			case *GoTo:
+				// loop has no tags, the tag is in an enclosing tagbody.
+				result = tr
+				break top
 			}
-			// Anything other than ReturnResult continues.
+			// Anything other than ReturnResult or GoTo continues.
 		}
 	}
 	return
